@@ -242,7 +242,7 @@ fn perform_exp_for_small_power(span: &mut SpanBuilder, pow: u64) {
 /// Appends a sequence of operations to calculate the base 2 integer logarithm of the stack top
 /// element, using non-deterministic technique (i.e. it takes help of advice provider).
 ///
-/// This operation takes 44 VM cycles.
+/// This operation takes 39 VM cycles.
 ///
 /// # Errors
 /// Returns an error if the logarithm argument (top stack element) equals ZERO.
@@ -255,24 +255,30 @@ pub fn ilog2(span: &mut SpanBuilder) -> Result<Option<CodeBlock>, AssemblyError>
     append_pow2_op(span);
     // => [pow2, ilog2, n, ...]
 
+    // The value of ilog2 is correct iff `pow2 <= n < 2 * pow2`, i.e. iff the bit of `n` at position
+    // `ilog2` is set and all higher bits are zero. With `mask = 2^64 - pow2` (ones at position
+    // `ilog2` and above) this is `n & mask == pow2`, which is checked separately for the high and
+    // the low 32-bit halves.
     #[rustfmt::skip]
     let ops = [
         // split the words into u32 halves to use the bitwise operations (4 cycles)
         MovUp2, U32split, MovUp2, U32split,
         // => [pow2_high, pow2_low, n_high, n_low, ilog2, ...]
 
-        // only one of the two halves in pow2 has a bit set, drop the other (9 cycles)
-        Dup1, Eqz, Dup0, MovDn3,
-        // => [drop_low, pow2_high, pow2_low, drop_low, n_high, n_low, ilog2, ...]
-        CSwap, Drop, MovDn3, CSwap, Drop,
-        // => [n_half, pow2_half, ilog2, ...]
+        // mask_low = (2^32 - pow2_low) mod 2^32; borrow = 1 iff pow2_low != 0 (3 cycles)
+        Pad, Dup2, U32sub,
+        // => [borrow, mask_low, pow2_high, pow2_low, n_high, n_low, ilog2, ...]
 
-        // set all bits to 1 lower than pow2_half (00010000 -> 00011111)
-        Swap, Pad, Incr, Incr, Mul, Pad, Incr, Neg, Add, 
-        // => [pow2_half * 2 - 1, n_half, ilog2, ...]
-        Dup1, U32and, 
-        // => [m, n_half, ilog2, ...] if ilog2 calculation was correct, m should be equal to n_half
-        Eq, Assert(0),
+        // mask_high = 2^32 - pow2_high - borrow (5 cycles)
+        Dup2, Add, Neg, Push(Felt::new(1 << 32)), Add,
+        // => [mask_high, mask_low, pow2_high, pow2_low, n_high, n_low, ilog2, ...]
+
+        // n_high & mask_high must be equal to pow2_high (5 cycles)
+        MovUp4, U32and, MovUp2, Eq, Assert(0),
+        // => [mask_low, pow2_low, n_low, ilog2, ...]
+
+        // n_low & mask_low must be equal to pow2_low (4 cycles)
+        MovUp2, U32and, Eq, Assert(0),
         // => [ilog2, ...]
     ];
 
